@@ -29,6 +29,16 @@ Theorem C09_j2k_main_header_terminates : forall g d, bytes d -> fst (k_main_head
 Proof. exact k_main_header_fuel. Qed.
 Print Assumptions C09_j2k_main_header_terminates.
 
+Theorem C09_j2k_tile_part_terminates : forall g cs d o, bytes d -> 0 <= o ->
+  fst (k_parse_tile g (fuel_of d) cs d o) <> OutOfFuel.
+Proof. exact k_parse_tile_fuel. Qed.
+Print Assumptions C09_j2k_tile_part_terminates.
+(* every parsed tile-part consumes input, so the tile sequence of Parse is finite *)
+Theorem C09_j2k_tile_part_progress : forall g cs d o i o', bytes d -> 0 <= o ->
+  fst (k_parse_tile g (fuel_of d) cs d o) = Ok (i, o') -> o + 2 <= o'.
+Proof. exact k_parse_tile_progress. Qed.
+Print Assumptions C09_j2k_tile_part_progress.
+
 (* ---- allocation requests ---- *)
 Theorem C09_jls_lossless_alloc_bound : forall g bs, bytes bs ->
   Forall (fun a => a <= 8 * Sres S_hdr (fst (jlsl_decode g (fuel_of bs) bs)) + 2 * zlen bs + 65536)
